@@ -178,6 +178,9 @@ var fileNames = []string{"a", "b", "c"}
 func newWorld(rt *rapid.T, p *profile) *world {
 	seed := rapid.Uint64Range(0, 1<<20).Draw(rt, "rngSeed")
 	nClients := rapid.IntRange(p.clients[0], p.clients[1]).Draw(rt, "nClients")
+	if nClients < p.clients[1] && rapid.IntRange(0, 3).Draw(rt, "moreClients") != 0 {
+		nClients++
+	}
 	return newWorldWith(rt, p, seed, nClients)
 }
 
